@@ -62,8 +62,16 @@ def slit_block(_b):
         PMi._solve_hk = fake_solve
         ps = [sp.Symbol(f'p{i}', positive=True) for i in range(3)]
         ls = [sp.Symbol(f'l{i}', positive=True) for i in range(3)]
+        tail_skipped = None
         try:
             avg_w, dist, vcum = PMi.psd_horvath_kawazoe(ps, ls, T, 'slit', ads, mat, use_cy=False)
+        except TypeError as exc:
+            if 'truth value of Relational' not in str(exc):
+                raise
+            # the tail branches on (or masks by) a comparison of symbolic widths: outside what the sympy run can follow -- its three
+            # obligations are undecided here, the bounded clauses on real runs decide
+            tail_skipped = exc
+            avg_w = dist = vcum = None
         finally:
             PMi._solve_hk = real_solve
         c = st['consts']
@@ -87,16 +95,23 @@ def slit_block(_b):
         obs.append(static_ob(f"{P}/psd_micro.psd_horvath_kawazoe/hk.sigma_constant_is_two_fifths_pow_one_sixth/last_digit",
                              bool(abs(lit - sp.Rational(2, 5) ** sp.Rational(1, 6)) < sp.Rational(1, 10 ** 7)),
                              str(sp.N(sp.Rational(2, 5) ** sp.Rational(1, 6), 12)), backend='sympy'))
-        ok_w = all(sp.simplify(avg_w[i] - ((w_syms[i] - d_s) + (w_syms[i + 1] - d_s)) / 2) == 0 for i in range(2))
-        obs.append(static_ob(f"{P}/psd_micro.psd_horvath_kawazoe/hk.tail_widths_are_internuclear_minus_adsorbent_diameter_averaged_pairwise/n=3",
-                             ok_w, str(list(avg_w)), backend='sympy', replay={'kind': 'c17.tail'}))
-        V = [ls[i] * M / rho / 1000 for i in range(3)]
-        ok_v = all(sp.simplify(vcum[i] - V[i + 1]) == 0 for i in range(2))
-        obs.append(static_ob(f"{P}/psd_micro.psd_horvath_kawazoe/hk.tail_cumulative_volume_is_loading_as_liquid_volume/n=3", ok_v, str(list(vcum)),
-                             backend='sympy', replay={'kind': 'c17.tail'}))
-        ok_d = all(sp.simplify(dist[i] - (V[i + 1] - V[i]) / (w_syms[i + 1] - w_syms[i])) == 0 for i in range(2))
-        obs.append(static_ob(f"{P}/psd_micro.psd_horvath_kawazoe/hk.tail_distribution_is_finite_difference_derivative/n=3", ok_d, str(list(dist)),
-                             backend='sympy', replay={'kind': 'c17.tail'}))
+        if tail_skipped is not None:
+            for tail_ in ('hk.tail_widths_are_internuclear_minus_adsorbent_diameter_averaged_pairwise/n=3', 'hk.tail_cumulative_volume_is_loading_as_liquid_volume/n=3',
+                          'hk.tail_distribution_is_finite_difference_derivative/n=3'):
+                o = static_ob(f"{P}/psd_micro.psd_horvath_kawazoe/{tail_}", False, f"not evaluated: {tail_skipped}"[:160], backend='sympy')
+                o['verdict'] = 'unsupported'
+                obs.append(o)
+        else:
+            ok_w = all(sp.simplify(avg_w[i] - ((w_syms[i] - d_s) + (w_syms[i + 1] - d_s)) / 2) == 0 for i in range(2))
+            obs.append(static_ob(f"{P}/psd_micro.psd_horvath_kawazoe/hk.tail_widths_are_internuclear_minus_adsorbent_diameter_averaged_pairwise/n=3",
+                                 ok_w, str(list(avg_w)), backend='sympy', replay={'kind': 'c17.tail'}))
+            V = [ls[i] * M / rho / 1000 for i in range(3)]
+            ok_v = all(sp.simplify(vcum[i] - V[i + 1]) == 0 for i in range(2))
+            obs.append(static_ob(f"{P}/psd_micro.psd_horvath_kawazoe/hk.tail_cumulative_volume_is_loading_as_liquid_volume/n=3", ok_v, str(list(vcum)),
+                                 backend='sympy', replay={'kind': 'c17.tail'}))
+            ok_d = all(sp.simplify(dist[i] - (V[i + 1] - V[i]) / (w_syms[i + 1] - w_syms[i])) == 0 for i in range(2))
+            obs.append(static_ob(f"{P}/psd_micro.psd_horvath_kawazoe/hk.tail_distribution_is_finite_difference_derivative/n=3", ok_d, str(list(dist)),
+                                 backend='sympy', replay={'kind': 'c17.tail'}))
         a1, a2 = PMi._dispersion_from_dict(ads, mat)
         obs.append(static_ob(f"{P}/psd_micro._dispersion_from_dict/hk.kirkwood_mueller_adsorbate/symbolic", sp.simplify(a1 - A_a) == 0, str(a1), backend='sympy'))
         obs.append(static_ob(f"{P}/psd_micro._dispersion_from_dict/hk.kirkwood_mueller_adsorbent/symbolic", sp.simplify(a2 - A_s) == 0, str(a2), backend='sympy'))
